@@ -86,6 +86,67 @@ Theorem C13_filter_reconciles_once : forall eps cy mt m thr l,
 Proof. reflexivity. Qed.
 Print Assumptions C13_filter_reconciles_once.
 
+From PS Require Import Lem_API.
+From PS Require Lem_Leftovers.
+Import Lem_Leftovers.
+(* every BIVARIATE entry point: with Reconcile on (default) it is the Reconcile=False function of the
+   reconciled pair (rec0/rec1 = the two trains returned by reconcile [a;b]); on valid input Reconcile is
+   irrelevant; order of the spike times and repeats are irrelevant *)
+Theorem C13_reconciles_once_isi_profile_bi : forall (eps : R) (cy : bool) (m : R) (a b : train), isi_profile_bi ROps eps cy true m a b = isi_profile_bi ROps eps cy false m (rec0 eps a b) (rec1 eps a b).
+Proof. exact bi_reconciles_once_isi_profile_bi. Qed.
+Print Assumptions C13_reconciles_once_isi_profile_bi.
+Theorem C13_reconciles_once_spike_profile_bi : forall (eps : R) (cy : bool) (m : R) (ri : bool) (a b : train), spike_profile_bi ROps eps cy true m ri a b = spike_profile_bi ROps eps cy false m ri (rec0 eps a b) (rec1 eps a b).
+Proof. exact bi_reconciles_once_spike_profile_bi. Qed.
+Print Assumptions C13_reconciles_once_spike_profile_bi.
+Theorem C13_reconciles_once_spike_sync_profile_bi : forall (eps : R) (cy : bool) (mt m : R) (a b : train), spike_sync_profile_bi ROps eps cy true mt m a b = spike_sync_profile_bi ROps eps cy false mt m (rec0 eps a b) (rec1 eps a b).
+Proof. exact bi_reconciles_once_spike_sync_profile_bi. Qed.
+Print Assumptions C13_reconciles_once_spike_sync_profile_bi.
+Theorem C13_reconciles_once_order_profile_bi : forall (eps : R) (cy : bool) (mt m : R) (a b : train), order_profile_bi ROps eps cy true mt m a b = order_profile_bi ROps eps cy false mt m (rec0 eps a b) (rec1 eps a b).
+Proof. exact bi_reconciles_once_order_profile_bi. Qed.
+Print Assumptions C13_reconciles_once_order_profile_bi.
+Theorem C13_reconciles_once_isi_distance_bi : forall (eps : R) (cy : bool) (m : R) (iv : option (R * R)) (a b : train), isi_distance_bi ROps eps cy true m iv a b = isi_distance_bi ROps eps cy false m iv (rec0 eps a b) (rec1 eps a b).
+Proof. exact bi_reconciles_once_isi_distance_bi. Qed.
+Print Assumptions C13_reconciles_once_isi_distance_bi.
+Theorem C13_reconciles_once_spike_distance_bi : forall (eps : R) (cy : bool) (m : R) (ri : bool) (iv : option (R * R)) (a b : train), spike_distance_bi ROps eps cy true m ri iv a b = spike_distance_bi ROps eps cy false m ri iv (rec0 eps a b) (rec1 eps a b).
+Proof. exact bi_reconciles_once_spike_distance_bi. Qed.
+Print Assumptions C13_reconciles_once_spike_distance_bi.
+Theorem C13_reconciles_once_spike_sync_bi : forall (eps : R) (cy : bool) (mt m : R) (iv : option (R * R)) (a b : train), spike_sync_bi ROps eps cy true mt m iv a b = spike_sync_bi ROps eps cy false mt m iv (rec0 eps a b) (rec1 eps a b).
+Proof. exact bi_reconciles_once_spike_sync_bi. Qed.
+Print Assumptions C13_reconciles_once_spike_sync_bi.
+Theorem C13_reconciles_once_spike_train_order_bi : forall (eps : R) (cy nz : bool) (mt m : R) (a b : train), spike_train_order_bi ROps eps cy true nz mt m a b = spike_train_order_bi ROps eps cy false nz mt m (rec0 eps a b) (rec1 eps a b).
+Proof. exact bi_reconciles_once_spike_train_order_bi. Qed.
+Print Assumptions C13_reconciles_once_spike_train_order_bi.
+Theorem C13_reconciles_once_spike_directionality : forall (eps : R) (cy nz : bool) (mt m : R) (a b : train), spike_directionality ROps eps cy true nz mt m a b = spike_directionality ROps eps cy false nz mt m (rec0 eps a b) (rec1 eps a b).
+Proof. exact bi_reconciles_once_spike_directionality. Qed.
+Print Assumptions C13_reconciles_once_spike_directionality.
+Theorem C13_valid_input_isi_distance_bi : forall (eps : R) (cy : bool) (m : R) (iv : option (R * R)) (a b : train) (ts te : R), 0 < eps -> vtrain ts te a -> vtrain ts te b -> isi_distance_bi ROps eps cy true m iv a b = isi_distance_bi ROps eps cy false m iv a b.
+Proof. exact bi_valid_reconcile_irrelevant_isi_distance_bi. Qed.
+Print Assumptions C13_valid_input_isi_distance_bi.
+Theorem C13_valid_input_spike_distance_bi : forall (eps : R) (cy : bool) (m : R) (ri : bool) (iv : option (R * R)) (a b : train) (ts te : R), 0 < eps -> vtrain ts te a -> vtrain ts te b -> spike_distance_bi ROps eps cy true m ri iv a b = spike_distance_bi ROps eps cy false m ri iv a b.
+Proof. exact bi_valid_reconcile_irrelevant_spike_distance_bi. Qed.
+Print Assumptions C13_valid_input_spike_distance_bi.
+Theorem C13_valid_input_spike_sync_bi : forall (eps : R) (cy : bool) (mt m : R) (iv : option (R * R)) (a b : train) (ts te : R), 0 < eps -> vtrain ts te a -> vtrain ts te b -> spike_sync_bi ROps eps cy true mt m iv a b = spike_sync_bi ROps eps cy false mt m iv a b.
+Proof. exact bi_valid_reconcile_irrelevant_spike_sync_bi. Qed.
+Print Assumptions C13_valid_input_spike_sync_bi.
+Theorem C13_valid_input_spike_profile_bi : forall (eps : R) (cy : bool) (m : R) (ri : bool) (a b : train) (ts te : R), 0 < eps -> vtrain ts te a -> vtrain ts te b -> spike_profile_bi ROps eps cy true m ri a b = spike_profile_bi ROps eps cy false m ri a b.
+Proof. exact bi_valid_reconcile_irrelevant_spike_profile_bi. Qed.
+Print Assumptions C13_valid_input_spike_profile_bi.
+Theorem C13_messy_input_isi_distance_bi : forall (eps : R) (cy : bool) (m : R) (iv : option (R * R)) (a b a2 b2 : train), same_train a a2 -> same_train b b2 -> isi_distance_bi ROps eps cy true m iv a b = isi_distance_bi ROps eps cy true m iv a2 b2.
+Proof. exact bi_messy_isi_distance_bi. Qed.
+Print Assumptions C13_messy_input_isi_distance_bi.
+Theorem C13_messy_input_spike_distance_bi : forall (eps : R) (cy : bool) (m : R) (ri : bool) (iv : option (R * R)) (a b a2 b2 : train), same_train a a2 -> same_train b b2 -> spike_distance_bi ROps eps cy true m ri iv a b = spike_distance_bi ROps eps cy true m ri iv a2 b2.
+Proof. exact bi_messy_spike_distance_bi. Qed.
+Print Assumptions C13_messy_input_spike_distance_bi.
+Theorem C13_messy_input_spike_sync_bi : forall (eps : R) (cy : bool) (mt m : R) (iv : option (R * R)) (a b a2 b2 : train), same_train a a2 -> same_train b b2 -> spike_sync_bi ROps eps cy true mt m iv a b = spike_sync_bi ROps eps cy true mt m iv a2 b2.
+Proof. exact bi_messy_spike_sync_bi. Qed.
+Print Assumptions C13_messy_input_spike_sync_bi.
+Theorem C13_messy_input_spike_train_order_bi : forall (eps : R) (cy nz : bool) (mt m : R) (a b a2 b2 : train), same_train a a2 -> same_train b b2 -> spike_train_order_bi ROps eps cy true nz mt m a b = spike_train_order_bi ROps eps cy true nz mt m a2 b2.
+Proof. exact bi_messy_spike_train_order_bi. Qed.
+Print Assumptions C13_messy_input_spike_train_order_bi.
+Theorem C13_messy_input_spike_directionality : forall (eps : R) (cy nz : bool) (mt m : R) (a b a2 b2 : train), same_train a a2 -> same_train b b2 -> spike_directionality ROps eps cy true nz mt m a b = spike_directionality ROps eps cy true nz mt m a2 b2.
+Proof. exact bi_messy_spike_directionality. Qed.
+Print Assumptions C13_messy_input_spike_directionality.
+
 (* non-vacuity: a messy list (unsorted, repeated, out-of-range times, different edges) and its clean form *)
 Example C13_nonvacuous :
   Forall2 same_train [([3/8; 1/8; 3/8], 0, 1); ([1/2], 1/8, 7/8)] [([1/8; 3/8], 0, 1); ([1/2; 1/2], 1/8, 7/8)].
